@@ -193,7 +193,7 @@ Proof.
           (forall x, In x (uids st') -> In x (uids st) \/ In x (issued_of r))).
   { intros ts Hc. apply create_spec in Hc. destruct Hc as (C & U & I). split; [|split]; auto.
     intros x Hx. rewrite U in Hx. apply in_app_or in Hx. auto. }
-  destruct (i_op it) as [| |t|bases t|tgt|k tgt|tgt w|].
+  destruct (i_op it) as [pol|pol|t pol|bases t pol|tgt|k tgt|tgt w|].
   - eapply Cr; eauto.
   - eapply Cr; eauto.
   - eapply Cr; eauto.
@@ -410,7 +410,7 @@ Definition direct_target (it : item) (ph : option Z) : option Z :=
 Definition indirect_refs (it : item) : list Z :=
   match i_op it with
   | OGetWrapped _ w => [w]
-  | ODeriveKey bases _ => bases
+  | ODeriveKey bases _ _ => bases
   | _ => []
   end.
 
@@ -439,7 +439,7 @@ Proof.
   destruct D as [D1 D2].
   unfold respects_dead, direct_target, indirect_refs; simpl.
   unfold step_item in H.
-  destruct (i_op it) as [| |t|bases t|tgt|k tgt|tgt w|]; simpl.
+  destruct (i_op it) as [pol|pol|t pol|bases t pol|tgt|k tgt|tgt w|]; simpl.
   - split; [|intros [?|?]; [discriminate|tauto]].
     split; [discriminate|]. split; [tauto|]. split; intros ids Hr; subst r; auto. unfold create in H.
     destruct (i_gate it); [destruct (add_objs _ _ _)|]; inversion H.
@@ -623,7 +623,7 @@ Proof.
           unfold last_id. destruct (rev ids) as [|x l] eqn:ER; auto. right. exists x. split; auto.
           rewrite Forall_forall in C. assert (Hx : In x ids). { apply in_rev. rewrite ER. left; auto. } apply C in Hx. lia.
         - inversion Hc; auto. }
-      destruct (i_op it) as [| |t|bases t|tgt|k tgt|tgt w|]; eauto.
+      destruct (i_op it) as [pol|pol|t pol|bases t pol|tgt|k tgt|tgt w|]; eauto.
       - destruct (check_bases who st bases); eauto; inversion E1; auto.
       - destruct (access who PDestroy (resolve tgt ph) st); [| |destruct (i_gate it)]; inversion E1; auto.
       - destruct (ver <? min_version k); [|destruct (access who (pop_of k) (resolve tgt ph) st)]; inversion E1; auto.
@@ -647,7 +647,7 @@ Qed.
 Definition next_of_max (st : store) : Z := fold_right Z.max 0 (uids st) + 1.
 
 Example rowid_allocator_would_reuse :
-  let st0 := snd (add_objs 0 [TSym; TSym] init_store) in
+  let st0 := snd (add_objs 0 [(TSym, 0); (TSym, 0)] init_store) in
   let st1 := remove_obj 2 st0 in
   uids st0 = [1; 2] /\ uids st1 = [1] /\ next_of_max st1 = 2 /\ next_uid st1 = 3.
 Proof. vm_compute. auto. Qed.
